@@ -1506,6 +1506,7 @@ pub fn run(prop: &str, tier: &str, report: &mut Report) {
         cost: usize,
     }
     let mut divergences: Vec<String> = vec![];
+    let mut watchdog_retries = 0u64;
     let mut frontier: Vec<Job> = (0..scs.len()).map(|i| Job { sc: i, prefix: vec![], cost: 0 }).collect();
     let mut outcomes: Vec<HashSet<String>> = vec![HashSet::new(); scs.len()];
     let mut execs: Vec<u64> = vec![0; scs.len()];
@@ -1531,6 +1532,21 @@ pub fn run(prop: &str, tier: &str, report: &mut Report) {
         let mut next = vec![];
         for (j, r) in frontier.iter().zip(results.iter()) {
             let sc = &scs[j.sc];
+            // a watchdog hit (an actor that did not reach its next scheduling point in 20 s) is
+            // first retried: the same prefix is executed again in a fresh worker
+            let mut retried: Option<Value> = None;
+            if r["error"].as_str().map(|e| e.starts_with("watchdog")).unwrap_or(false) {
+                for _ in 0..2 {
+                    watchdog_retries += 1;
+                    let again = common::pool_map("e2", &extra, 1, vec![json!({"scenario": sc, "prefix": j.prefix})]);
+                    let ok = !again[0]["error"].as_str().map(|e| e.starts_with("watchdog")).unwrap_or(false);
+                    retried = Some(again[0].clone());
+                    if ok {
+                        break;
+                    }
+                }
+            }
+            let r = retried.as_ref().unwrap_or(r);
             if r.get("crashed").is_some() {
                 eprintln!("HARNESS ERROR: worker crashed on scenario {} prefix {:?}: {}", sc.name, j.prefix, r);
                 std::process::exit(2);
@@ -1615,6 +1631,7 @@ pub fn run(prop: &str, tier: &str, report: &mut Report) {
     report.cov("executions", json!(total_exec));
     report.cov("preemption_bound_completed", json!(if capped { Value::Null } else { json!(bound) }));
     report.cov("time_cap_hit", json!(capped));
+    report.cov("watchdog_retries", json!(watchdog_retries));
     report.cov("exhaustive", json!(!capped));
     if prop == "C02" {
         let mut frames = 0;
